@@ -60,6 +60,10 @@ type realm struct {
 	// Used by close() to wait for sessions to exit.
 	waitHandlers sync.WaitGroup
 
+	// Sessions whose handlers exited because the realm is shutting down. Their
+	// peers are closed by close() after the broker and dealer have stopped.
+	shutdownSessions []*wamp.Session
+
 	// Session meta-procedure registration ID -> handler map.
 	metaProcMap map[wamp.ID]func(*wamp.Invocation) wamp.Message
 	metaDone    chan struct{}
@@ -222,6 +226,15 @@ func (r *realm) close() {
 	r.dealer.close()
 	r.broker.close()
 
+	// Nothing can be routed to the sessions any more, so now their peers can
+	// be closed. Until the last session handler had exited, the broker and
+	// dealer could still route events, results and errors caused by the other
+	// sessions to a session whose handler had already exited.
+	for _, sess := range r.shutdownSessions {
+		sess.Close()
+	}
+	r.shutdownSessions = nil
+
 	// Finally close realm's action channel.
 	close(r.actionChan)
 	<-r.stopped
@@ -341,6 +354,9 @@ func (r *realm) onLeave(sess *wamp.Session, shutdown, killAll bool) {
 	sync := make(chan struct{})
 	r.actionChan <- func() {
 		delete(r.clients, sess.ID)
+		if shutdown {
+			r.shutdownSessions = append(r.shutdownSessions, sess)
+		}
 		testaments, hasTstm = r.testaments[sess.ID]
 		if hasTstm {
 			delete(r.testaments, sess.ID)
@@ -428,7 +444,9 @@ func (r *realm) handleSession(sess *wamp.Session) error {
 			}
 		}
 		r.onLeave(sess, shutdown, killAll)
-		sess.Close()
+		if !shutdown {
+			sess.Close()
+		}
 		r.waitHandlers.Done()
 	}()
 
